@@ -258,7 +258,8 @@ func (P *Prog) decomposeGates(conds []Fact) []Fact {
 			seen[c.String()] = true
 			out = append(out, c)
 		}
-		if c.Pred.Op != "gate" {
+		hasMinMax := c.Pred.Op == "binop" && len(c.Pred.Args) == 2 && (c.Pred.Args[0].Op == "max" || c.Pred.Args[0].Op == "min" || c.Pred.Args[1].Op == "max" || c.Pred.Args[1].Op == "min")
+		if c.Pred.Op != "gate" && !hasMinMax {
 			continue
 		}
 		tmp := factSet{}
